@@ -183,8 +183,16 @@ def parse_score(s):
     return Fraction(int(n), int(d))
 
 
+_CLOSE = {}
+
+
 def np_close(a, b):
-    return bool(np.isclose(a, b))
+    """np.isclose on two Python floats (memoised: the oracle asks for the same pairs of grid scores many times)"""
+    k = (float(a), float(b))
+    v = _CLOSE.get(k)
+    if v is None:
+        v = _CLOSE[k] = bool(np.isclose(k[0], k[1]))
+    return v
 
 
 def le_tol(a, b):
@@ -1086,7 +1094,22 @@ def positions_checks(res, drv, outs):
     res.branch(["positions"] * len(recs))
 
 
+def _guard(f, box, *a):
+    try:
+        f(box, *a)
+        return None
+    except Exception as e:  # noqa: BLE001
+        return e
+
+
 def run_jobs(ctx, res, drv, pool, jobs, with_witness=True, node_order=True):
+    box = {}
+    run_jobs_collect(box, ctx, pool, jobs, with_witness, node_order)
+    run_jobs_analyse(ctx, res, drv, pool, jobs, box["collected"])
+
+
+def run_jobs_collect(box, ctx, pool, jobs, with_witness=True, node_order=True):
+    """start everything that runs in the worker processes; -> box['collected'] = (roles, outs)"""
     extra = []
     if with_witness:
         extra += [(0, WITNESS_JOB, "W0"), (1, WITNESS_JOB, "W1")]
@@ -1098,6 +1121,11 @@ def run_jobs(ctx, res, drv, pool, jobs, with_witness=True, node_order=True):
             extra += [((3 * k) % pool.n, nj, "N0"), ((3 * k + 1) % pool.n, nj, "N1"), ((3 * k + 2) % pool.n, nj, "N2")]
     tasks, roles = schedule(jobs, pool.n, extra, third=not ctx.quick)
     outs = pool.run(tasks)
+    box["collected"] = (roles, outs)
+
+
+def run_jobs_analyse(ctx, res, drv, pool, jobs, collected):
+    roles, outs = collected
     by_job = {}
     wit = {}
     nod = {}
@@ -1197,15 +1225,34 @@ def run(ctx):
                 "a non-empty candidate list; distinct by full input")
     drv = Driver()
     pool = Pool(N_WORKERS)
+    import time as _time
+
+    phases = {}
+
+    def timed(name, f, *a, **k):
+        t0 = _time.time()
+        f(*a, **k)
+        phases[name] = round(_time.time() - t0, 1)
+
     try:
-        synth_isclose(ctx, res, drv)
-        synth_update_hof(ctx, res, drv)
-        synth_tournament(ctx, res, drv)
-        synth_adapt(ctx, res, drv)
-        synth_choice(ctx, res, drv)
-        synth_sort_by(ctx, res, drv)
         jobs = gen_jobs(ctx, 44 if ctx.quick else 420, long_small=2 if ctx.quick else 40)
-        run_jobs(ctx, res, drv, pool, jobs)
+        # whole runs execute in the worker processes while the unit correspondences run in this process
+        box = {}
+        th = threading.Thread(target=lambda: box.update(err=_guard(run_jobs_collect, box, ctx, pool, jobs)), daemon=True)
+        th.start()
+        timed("isclose", synth_isclose, ctx, res, drv)
+        timed("update_hof", synth_update_hof, ctx, res, drv)
+        timed("tournament", synth_tournament, ctx, res, drv)
+        timed("adapt", synth_adapt, ctx, res, drv)
+        timed("choice", synth_choice, ctx, res, drv)
+        timed("sort_by", synth_sort_by, ctx, res, drv)
+        t0 = _time.time()
+        th.join()
+        phases["waiting_for_workers"] = round(_time.time() - t0, 1)
+        if box.get("err"):
+            raise box["err"]
+        timed("runs_analysis", run_jobs_analyse, ctx, res, drv, pool, jobs, box["collected"])
+        res.extra["phase_seconds"] = phases
         if res.extra.get("infra_failures"):
             raise RuntimeError(f"{res.extra['infra_failures']} worker job(s) failed for infrastructure reasons: {res.notes[:3]}")
         res.extra["configurations"] = len(jobs)
